@@ -48,8 +48,8 @@ Proof.
 Qed.
 
 (** matchVertices: keys of the counts are polygon indices; a single winner is one of them *)
-Lemma matchVertices_keys polys : forall verts counts m counts',
-  keys_in (zlen polys) counts -> matchVertices polys verts counts = Ok (m, counts') ->
+Lemma matchVertices_keys cancelled innerI polys : forall verts counts m counts',
+  keys_in (zlen polys) counts -> matchVertices cancelled innerI polys verts counts = Ok (m, counts') ->
   keys_in (zlen polys) counts' /\ (forall k, m = Some k -> In k (map fst counts')).
 Proof.
   induction verts as [| v verts IH]; intros counts m counts' Hk H; cbn [matchVertices] in H.
@@ -59,7 +59,9 @@ Proof.
                                    keys_in (zlen polys) c').
     { induction l as [| p l IHl]; intros k c c' Hg Hc Hk0 Hkl; cbn in Hg.
       - inversion Hg; subst. exact Hc.
-      - bind_inv Hg outer Ho. bind_inv Hg cb Hcb. unfold zlen in Hkl. cbn [length] in Hkl.
+      - unfold zlen in Hkl. cbn [length] in Hkl.
+        destruct (skipCancelled cancelled k innerI); [apply (IHl (k + 1) _ c' Hg); [exact Hc | lia | unfold zlen; lia] |].
+        bind_inv Hg outer Ho. bind_inv Hg cb Hcb.
         apply (IHl (k + 1) _ c' Hg); [| lia | unfold zlen; lia].
         destruct (fst cb); [| exact Hc]. intros k' Hk'. apply om_incr_keys in Hk'.
         destruct Hk' as [-> | Hk']; [unfold zlen; lia | apply Hc, Hk']. }
@@ -106,27 +108,27 @@ Proof.
 Qed.
 
 (** ** the loop *)
-Lemma matchInnersLoop_spec : forall innerRings polys sorted turned polys' turned',
-  matchInnersLoop polys innerRings sorted turned = Ok (polys', turned') ->
+Lemma matchInnersLoop_spec cancelled : forall innerRings innerI polys sorted turned polys' turned',
+  matchInnersLoop cancelled innerI polys innerRings sorted turned = Ok (polys', turned') ->
   exists matched tu, Forall2 (ext matched) polys polys' /\
     Permutation (concat polys') (concat polys ++ matched) /\
     turned' = turned ++ map (@rev pt) tu /\ Permutation innerRings (matched ++ tu).
 Proof.
-  induction innerRings as [| inner rest IH]; intros polys sorted turned polys' turned' H; cbn [matchInnersLoop] in H.
+  induction innerRings as [| inner rest IH]; intros innerI polys sorted turned polys' turned' H; cbn [matchInnersLoop] in H.
   - inversion H; subst. exists [], []. cbn [map app]. rewrite !app_nil_r.
     split; [apply Forall2_ext_refl |]. split; [apply Permutation_refl |]. split.
     + reflexivity.
     + apply perm_nil.
   - bind_inv H m Hm. destruct m as [mk counts].
     assert (K0 : keys_in (zlen polys) []) by (intros k []).
-    destruct (matchVertices_keys _ _ _ _ _ K0 Hm) as [Kc Ks].
+    destruct (matchVertices_keys _ _ _ _ _ _ _ K0 Hm) as [Kc Ks].
     assert (Happ : forall k sorted', 0 <= k < zlen polys ->
-              matchInnersLoop (append_inner polys k inner) rest sorted' turned = Ok (polys', turned') ->
+              matchInnersLoop cancelled (innerI + 1) (append_inner polys k inner) rest sorted' turned = Ok (polys', turned') ->
               exists matched tu, Forall2 (ext matched) polys polys' /\
                 Permutation (concat polys') (concat polys ++ matched) /\
                 turned' = turned ++ map (@rev pt) tu /\ Permutation (inner :: rest) (matched ++ tu)).
     { intros k sorted' Hk H'. destruct (append_inner_spec polys k inner Hk) as [F P].
-      destruct (IH _ _ _ _ _ H') as [matched [tu [F' [P' [Et Pi]]]]].
+      destruct (IH _ _ _ _ _ _ H') as [matched [tu [F' [P' [Et Pi]]]]].
       exists (inner :: matched), tu. split; [| split; [| split]].
       - apply (Forall2_ext_trans [inner] matched _ _ _ F F').
       - eapply Permutation_trans; [exact P' |]. eapply Permutation_trans; [apply Permutation_app_tail, P |].
@@ -136,7 +138,7 @@ Proof.
     destruct mk as [k |].
     + apply (Happ k sorted); [| exact H]. apply Kc, Ks. reflexivity.
     + destruct (length counts =? 0)%nat eqn:El.
-      * destruct (IH _ _ _ _ _ H) as [matched [tu [F' [P' [Et Pi]]]]].
+      * destruct (IH _ _ _ _ _ _ H) as [matched [tu [F' [P' [Et Pi]]]]].
         exists matched, (inner :: tu). split; [exact F' |]. split; [exact P' |]. split.
         -- rewrite Et. cbn [map]. rewrite <- app_assoc. reflexivity.
         -- apply Permutation_cons_app, Pi.
@@ -174,8 +176,8 @@ Proof.
   - inversion H; subst. exists (map (fun o : ring => [o]) outs), [], [].
     split; [cbn [map]; rewrite app_nil_r; reflexivity |]. split; [apply HF, Forall2_ext_refl |].
     split; [| apply perm_nil]. unfold Base.ring in *. rewrite Hc, app_nil_r. apply Permutation_refl.
-  - bind_inv H r Hr. destruct r as [polys' turned']. inversion H; subst. cbn [fst snd].
-    destruct (matchInnersLoop_spec _ _ _ _ _ _ Hr) as [matched [tu [F [P [Et Pi]]]]].
+  - bind_inv H cancelled Hcb. bind_inv H r Hr. destruct r as [polys' turned']. inversion H; subst. cbn [fst snd].
+    destruct (matchInnersLoop_spec _ _ _ _ _ _ _ _ Hr) as [matched [tu [F [P [Et Pi]]]]].
     exists polys', matched, tu. cbn [app] in Et. subst turned'. rewrite map_map. unfold Base.ring in *. rewrite Hc in P.
     repeat split; try assumption. apply HF, F.
 Qed.
